@@ -228,9 +228,14 @@ package db
 
 // Document.Body is TRUSTED (thin frame contract): returns the cached body map or unmarshals doc._rawBody into
 // doc._body (Body.Unmarshal writes through &doc._body and fills a fresh map). Nothing else is written.
+// (C19 parse link, trusted) the map returned is the cached one, or the JSON parser's view of doc._rawBody: its keys are
+// exactly the top-level member names of that JSON text (vocabulary c19JSONHasKey, /verif/trusted/c19_bytes.spec; false for
+// every key when there is no raw body or it is not a JSON object, in which case Body() returns nil / an empty map).
 //@ func Document.Body
 //@   trusted
 //@   modifies doc._body
+//@   ensures[cached] old(doc._body) != nil ==> result == old(doc._body)
+//@   ensures[parsed] old(doc._body) == nil ==> (forall k string :: {k in result} (k in result) <==> (doc._rawBody != nil && c19JSONHasKey(doc._rawBody, k)))
 
 // Document.MarshalBodyAndSync is TRUSTED (thin frame contract): JSON encoding (base.InjectJSONProperties /
 // base.JSONMarshal -> Document.MarshalJSON) only reads the document and allocates the result.
@@ -288,12 +293,12 @@ package db
 //@   ensures[new-rev]           isNilErr(resultErr) && !createNewRevIDSkipped ==> called(addRevision, 1) && resultDocument == newDoc && resultDocument.RevID == callres(CreateRevIDWithBytes, 1, 0)
 //@   ensures[no-new-rev]        isNilErr(resultErr) && createNewRevIDSkipped ==> !called(addRevision, 1) && resultDocument == newDoc && resultDocument.RevID == doc.SyncData.GetRevTreeID()
 // [xattr-only-no-rev]: a mutation that changed only the user xattr (body checksum as recorded, user xattr present)
-// is imported without a new revision. CANDIDATE FINDING F10 (kept as a failing clause): it holds on the first
+// is imported without a new revision. FINDING F12 (kept as a failing clause; listed in known_findings.txt): it holds on the first
 // invocation ([xattr-only-no-rev-first-attempt], proved) but not on the retry of an ON-DEMAND import after a CAS
 // failure: there existingDoc is replaced by &BucketDocument{Cas: doc.Cas} -- no Xattrs -- so
 // `len(existingDoc.Xattrs[userXattrKey]) == 0` makes shouldGenerateNewRev true and a generation+1 revision with
 // the unchanged body is added (the engine proves `!createNewRevIDSkipped` on every error-free return of that
-// path). Reproduced on the real code: /verif/findings/F10_ondemand_import_retry_user_xattr_test.go (SDK body
+// path). Reproduced on the real code: /verif/findings/F12_ondemand_import_retry_user_xattr_test.go (SDK body
 // write imported as 1-..; user xattr "A" imported on demand: still 1-..; user xattr "B", and "C" injected while
 // the on-demand import of "B" is writing: the retry stores 2-.. with the same body).
 //@   ensures[xattr-only-no-rev-first-attempt] old(doc.Cas == existingDoc.Cas) && isNilErr(resultErr) && !callres(IsSGWrite, 1, 2) && len(doc.rawUserXattr) > 0 ==> createNewRevIDSkipped
@@ -360,3 +365,78 @@ package db
 // have to carry the C08 cache invariant through those loops. What DocChanged does with the two verdicts --
 // accept on isSGWrite, fetch the body and compare its checksum on ambiguous, drop otherwise -- is the
 // composition stated by lemma xattrOnly_agrees_with_IsSGWrite.)
+
+// ---- the three write paths: import-before-write only for external writes (path contracts on the pre-checks) ----
+
+// The callbacks of Put, PutExistingCurrentVersion and PutExistingRevWithConflictResolution start with the same
+// pre-check. The own-write check runs on this invocation's doc (body-less variant); the import is requested
+// exactly when the check says "not the gateway's write" (a gateway write is never re-imported), it is given
+// this invocation's doc, and an import error aborts the write. (`only-contracts`: these closures are the whole
+// write path; the preconditions of the C04/C10 contracts they call later are not C09's concern.)
+// Put$1 and PutExistingRevWithConflictResolution$1 are under contract for C05 (one contract per function): the same
+// five clauses are in db/zz_verif_c05.go, blocks tagged `props C05 C09`. PutExistingCurrentVersion$1:
+//@ func DatabaseCollectionWithUser.PutExistingCurrentVersion$1
+//@   only-contracts IsSGWrite
+//@   modifies *
+//@   ensures[own-write-not-imported]  called(IsSGWrite, 1) && callres(IsSGWrite, 1, 0) ==> !called(OnDemandImportForWrite, 1)
+//@   ensures[import-only-after-check] called(OnDemandImportForWrite, 1) ==> called(IsSGWrite, 1) && !callres(IsSGWrite, 1, 0)
+//@   ensures[external-imported-first] doc != nil && isNilErr(resultErr) && !callres(IsSGWrite, 1, 0) ==> called(OnDemandImportForWrite, 1) && isNilErr(callres(OnDemandImportForWrite, 1, 0))
+//@   before[this-doc]   call IsSGWrite#1 $0 == doc && len($2) == 0
+//@   before[import-doc] call OnDemandImportForWrite#1 $3 == doc
+
+// ---- the gateway's own metadata-only rewrites (xattr-only writes) stay recognisable as own writes ----
+
+// Lemma committed_write_is_own_write needs `_sync.cas == cas` after the write. The storage layer provides that
+// only if the macro-expansion spec handed to the write contains the CAS expansion of the `_sync.cas` path:
+// TRUSTED STORAGE LINK (stated here, not provable in Go): KVStore.UpdateXattrs / WriteUpdateWithXattrs with a spec
+// entry {Path: "<xattr>.cas", Type: MacroCas} stores the cas of that very mutation at that path.
+// The path contracts below check the gateway-side half: every xattr-only rewrite issued by the gateway passes
+// such an entry for `_sync.cas` (and for `_mou.cas`, which marks the rewrite as metadata-only).
+
+// casPath(k) is the string k + ".cas" (definition: the body of xattrCasPath is `xattrKey + "." + xattrMacroCas`,
+// xattrMacroCas = "cas"). xattrCasPath is TRUSTED only as the naming of that concatenation (the specification
+// language has no string concatenation); XattrMouCasPath() is the same concatenation for base.MouXattrName.
+//@ fn casPath(k string) string
+//@ func xattrCasPath
+//@   trusted
+//@   ensures[def] result == casPath(xattrKey)
+//@ func XattrMouCasPath
+//@   trusted
+//@   ensures[def] result == casPath(base.MouXattrName)
+
+// slot i of a macro-expansion spec asks for the document CAS at `_sync.cas` / at `_mou.cas`
+//@ pred expandsSyncCas(spec []sgbucket.MacroExpansionSpec, i int) bool
+//@   is 0 <= i && i < len(spec) && spec[i].Path == casPath(base.SyncXattrName) && spec[i].Type == sgbucket.MacroCas
+//@ pred expandsMouCas(spec []sgbucket.MacroExpansionSpec, i int) bool
+//@   is 0 <= i && i < len(spec) && spec[i].Path == casPath(base.MouXattrName) && spec[i].Type == sgbucket.MacroCas
+
+//@ func macroExpandSpec
+//@   safety on
+//@   ensures[sync-cas] len(result) == 2 && result[0].Path == casPath(xattrName) && result[0].Type == sgbucket.MacroCas
+//@   ensures[crc]      result[1].Type == sgbucket.MacroCrc32c
+
+// restampVersionCAS (re-stamp when the generated version is ahead of the server CAS): the one storage write is
+// guarded on the cas it was given, rewrites xattrs only, and expands _sync.cas and _mou.cas to the new cas; the
+// _mou it writes is computeMetadataOnlyUpdate's (HexCAS = expansion placeholder).
+//@ func DatabaseCollectionWithUser.restampVersionCAS
+//@   only-contracts NewMacroExpansionSpec, xattrCasPath, XattrMouCasPath, computeMetadataOnlyUpdate
+//@   modifies *
+//@   before[expands-sync-cas] call UpdateXattrs#1 $6 != nil && expandsSyncCas($6.MacroExpansion, 0)
+//@   before[expands-mou-cas]  call UpdateXattrs#1 expandsMouCas($6.MacroExpansion, 2)
+//@   before[cas-guarded]      call UpdateXattrs#1 $4 == cas && $2 == key
+//@   ensures[write-or-error]  isNilErr(result1) ==> called(UpdateXattrs, 1) && result0 == callres(UpdateXattrs, 1, 0)
+
+// CompactDocChannelHistory (channel-history compaction rewrite): same requirement.
+//@ func DatabaseCollection.CompactDocChannelHistory
+//@   only-contracts NewMacroExpansionSpec, xattrCasPath, XattrMouCasPath, computeMetadataOnlyUpdate
+//@   modifies *
+//@   before[expands-sync-cas] call UpdateXattrs#1 $6 != nil && expandsSyncCas($6.MacroExpansion, 1)
+//@   before[expands-mou-cas]  call UpdateXattrs#1 expandsMouCas($6.MacroExpansion, 0)
+
+// MigrateAttachmentMetadata (attachment metadata moved from _sync to the global xattr, xattr-only): same requirement.
+//@ func DatabaseCollectionWithUser.MigrateAttachmentMetadata
+//@   only-contracts NewMacroExpansionSpec, xattrCasPath, XattrMouCasPath, macroExpandSpec
+//@   modifies *
+//@   before[expands-sync-cas] call UpdateXattrs#1 $6 != nil && expandsSyncCas($6.MacroExpansion, 0)
+//@   before[expands-mou-cas]  call UpdateXattrs#1 expandsMouCas($6.MacroExpansion, 2)
+//@   before[cas-guarded]      call UpdateXattrs#1 $4 == cas && $2 == docID
